@@ -94,10 +94,21 @@ func init() {
 				refused := func(i int) bool { return mode == 2 && i%2 == 1 && i%4 == 1 }
 				var mu sync.Mutex
 				var servers []*RefServer
+				// every second set of three rounds authenticates (a multi-step mechanism: one dialogue per dial)
+				authType := []string{"", "LOGIN-NOENC", "", "SCRAM-SHA-256", "", "CRAM-MD5"}[(round/3)%6]
 				dial := func(ctx context.Context, network, address string) (net.Conn, error) {
-					srv := NewRefServer([]string{"8BITMIME", "ENHANCEDSTATUSCODES"}, map[int]SrvAction{})
+					caps := []string{"8BITMIME", "ENHANCEDSTATUSCODES"}
+					var ss *saslServer
+					if authType != "" {
+						caps = append(caps, "AUTH PLAIN LOGIN CRAM-MD5 SCRAM-SHA-1 SCRAM-SHA-256")
+						ss = &saslServer{user: "verif-user", pass: "S3cr3t-Passw0rd!", salt: []byte("0123456789abcdef"), iter: 4096}
+					}
+					srv := NewRefServer(caps, map[int]SrvAction{})
 					cur := -1
 					srv.Dynamic = func(pos int, verb, line string) (SrvAction, bool) {
+						if ss != nil && (verb == "AUTH" || verb == "auth-step") {
+							return ss.handle(verb, line)
+						}
 						if jitter > 0 {
 							time.Sleep(time.Duration((pos*7919)%(jitter*60)) * time.Microsecond)
 						}
@@ -114,12 +125,16 @@ func init() {
 					mu.Unlock()
 					return NewScriptConn(srv), nil
 				}
-				client, err := mail.NewClient("verif.example", mail.WithTLSPolicy(mail.NoTLS), mail.WithDialContextFunc(dial), mail.WithTimeout(10*time.Second))
+				copts := []mail.Option{mail.WithTLSPolicy(mail.NoTLS), mail.WithDialContextFunc(dial), mail.WithTimeout(10 * time.Second)}
+				if authType != "" {
+					copts = append(copts, mail.WithSMTPAuth(mail.SMTPAuthType(authType)), mail.WithUsername("verif-user"), mail.WithPassword("S3cr3t-Passw0rd!"))
+				}
+				client, err := mail.NewClient("verif.example", copts...)
 				if err != nil {
 					c.Note("config: %v", err)
 					continue
 				}
-				in := map[string]interface{}{"goroutines": n, "mode": []string{"Send on a shared connection", "DialAndSend per call", "Send on the shared connection and DialAndSend (some refused at end-of-data) at the same time"}[mode], "jitter": jitter}
+				in := map[string]interface{}{"goroutines": n, "mode": []string{"Send on a shared connection", "DialAndSend per call", "Send on the shared connection and DialAndSend (some refused at end-of-data) at the same time"}[mode], "jitter": jitter, "auth": authType}
 				msgs := make([]*mail.Msg, n)
 				for i := range msgs {
 					msgs[i] = c13Msg(i)
